@@ -869,11 +869,22 @@ impl<'a> Machine<'a> {
                     self.in_handler = false;
                     match hr {
                         Err(Stop::ResumeSame) => {
+                            // the failing piece was the header of a block statement: re-executing the statement is re-testing
+                            // its conditions (IF / SELECT from the top, a top-tested loop's condition); where the statements
+                            // leave open what is re-executed (FOR, bottom-tested DO, one-line IF) nothing is decided
+                            match s {
+                                Stmt::For { .. } | Stmt::IfLine { .. } | Stmt::Do { kind: DoKind::BottomWhile | DoKind::BottomUntil, .. } => return undet("RESUME after an error in the header of FOR / one-line IF / LOOP WHILE"),
+                                Stmt::If { .. } | Stmt::Select { .. } | Stmt::While { .. } | Stmt::Do { .. } => self.feat("resume-re-executes-block-header"),
+                                _ => {}
+                            }
                             self.err_code = 0;
                             self.feat("resume");
                             continue;
                         }
                         Err(Stop::ResumeNext) => {
+                            if matches!(s, Stmt::For { .. } | Stmt::IfLine { .. } | Stmt::Do { .. } | Stmt::If { .. } | Stmt::Select { .. } | Stmt::While { .. }) {
+                                return undet("RESUME NEXT after an error in the header of a block statement");
+                            }
                             self.err_code = 0;
                             self.feat("resume-next");
                             return Ok(());
